@@ -30,9 +30,45 @@ def types_of(tokens, acc):
     return acc
 
 
+WARM = ("# h\n\n> q\n\n- a\n1. b\n\n    code\n\n```\nf\n```\n\n***\n\na|b\n-|-\n1|2\n\ns\n===\n\n"
+        "*e* **s** ~~d~~ `c` [l](/u) ![i](/s) <http://a.b> &amp; \\* x  \ny [r]\n\n[r]: /u\n")
+_RMD = {}
+
+
+def routed(cfgkey, route):
+    """The same configuration reached by another public route of switching rules:
+    1 = an instance that has already parsed (all rules on) is re-configured with configure(preset) + enable/disable;
+    2 = the configuration is left and re-entered through a reset_rules() block in which every rule was switched on
+        and a document parsed (the block must restore the rules in force on entry)."""
+    key = (cfgkey, route)
+    if key in _RMD:
+        return _RMD[key]
+    from markdown_it import MarkdownIt
+
+    cfg = json.loads(cfgkey)
+    upd = {k: gen.opt_value(k, v) for k, v in cfg.get("opts", [])}
+    if route == 1:
+        md = MarkdownIt("js-default")
+        md.parse(WARM)
+        md.configure(cfg["preset"], options_update=upd or None)
+        if cfg.get("on"):
+            md.enable(cfg["on"])
+        if cfg.get("off"):
+            md.disable(cfg["off"])
+    else:
+        md = gen.make_md(cfg)
+        md.parse(WARM)
+        with md.reset_rules():
+            allr = md.get_all_rules()
+            md.enable([n for c in allr for n in allr[c] if n != "linkify"])
+            md.parse(WARM)
+    _RMD[key] = md
+    return md
+
+
 def rec_types(job):
-    cfgkey, doc = job
-    md = A.md_for(cfgkey)
+    cfgkey, doc = job[:2]
+    md = A.md_for(cfgkey) if len(job) < 3 or not job[2] else routed(cfgkey, job[2])
     act = md.get_active_rules()
     toks = md.parse(doc)
     return {"kind": "types", "active": [f"{c}/{n}" for c in act for n in act[c]],
@@ -110,6 +146,9 @@ def run(tier, rep):
     rnd = random.Random(C.SEED)
     j1 = [(ckeys[(k * 13) % len(ckeys)], d) for k, d in enumerate(docs)]
     j1 += [(ck, dense[0]) for ck in ckeys]
+    # the same configurations reached through configure() on a used instance and through a reset_rules() block
+    j1 += [(ckeys[(k * 7) % len(ckeys)], d, 1 + k % 2) for k, d in enumerate(gen.sample(docs, 4000 if q else 60000, C.SEED + 5))]
+    j1 += [(ck, dense[0], r) for ck in ckeys for r in (1, 2)]
     t1 = C.pmap(rec_types, j1, chunk=400)
     # pairs
     bases = [gen.cfg_key(c) for c in gen.BASE_CONFIGS] + gen.sample(ckeys, 40 if q else 400, C.SEED + 2)
@@ -148,7 +187,7 @@ def replay(case, rep):
     if case.get("module") == "FacadeTrace":
         return c12.replay(case, rep)
     job = case["job"]
-    t = rec_types(tuple(job)) if len(job) == 2 else rec_pair(tuple(job))
+    t = rec_pair(tuple(job)) if isinstance(job[0], str) and job[0] in ("table", "strikethrough", "inline_definitions", "store_labels") else rec_types(tuple(job))
     v, _ = C.validate_traces("SwitchesTrace", [t])
     if not (v[0][0] == "ok" or v[0][0].startswith("skip:")):
         rep.violation(case.get("key", "replay"), case)
